@@ -302,6 +302,26 @@ func corpus() []*Case {
 		{Tables: tabs, Q: sel(tbl(0), tru(), col(0, 0), &Expr{Op: "scalar", Q: &Query{K: "group", Src: tbl(1), Wh: &Expr{Op: "cmp", O: "<=", A: col(0, 0), B: col(1, 0)}, Aggs: []Agg{{F: "max", E: col(0, 0)}}, Hav: tru(), Proj: []*Expr{col(0, 0)}}})},
 		{Tables: tabs, Q: sel(tbl(0), tru(), &Expr{Op: "scalar", Q: sub})},
 	}
+	// correlated NOT EXISTS / NOT IN with an outer-only conjunct that is NULL for one outer row (the row is kept)
+	t2 := Table{Types: []string{"int", "int"}, PK: -1, Rows: [][]Val{ints(1, 5), ints(2, nil), ints(3, 0)}}
+	t3 := Table{Types: []string{"int"}, PK: -1, Rows: [][]Val{ints(1), ints(2), ints(3)}}
+	and := func(a, b *Expr) *Expr { return &Expr{Op: "and", A: a, B: b} }
+	gt1 := &Expr{Op: "cmp", O: ">", A: col(1, 1), B: konst(intv(1))}
+	cases = append(cases,
+		&Case{Tables: []Table{t2, t3}, Q: sel(tbl(0), &Expr{Op: "not", NotSyntax: true, A: &Expr{Op: "exists",
+			Q: sel(tbl(1), and(&Expr{Op: "cmp", O: "=", A: col(0, 0), B: col(1, 0)}, gt1), konst(intv(1)))}}, col(0, 0))},
+		&Case{Tables: []Table{t2, t3}, Q: sel(tbl(0), &Expr{Op: "not", NotSyntax: true, A: &Expr{Op: "inq", A: col(0, 0),
+			Q: sel(tbl(1), gt1, col(0, 0))}}, col(0, 0))})
+	// left-deep set-operation chains: a value occurring 3 times in A and once in B
+	a3 := Table{Types: []string{"int"}, PK: -1, Rows: [][]Val{ints(1), ints(1), ints(1), ints(2)}}
+	b1 := Table{Types: []string{"int"}, PK: -1, Rows: [][]Val{ints(1), ints(5)}}
+	exc := func() *Query {
+		return &Query{K: "setop", SOp: "except", L: sel(tbl(0), tru(), col(0, 0)), R: sel(tbl(1), tru(), col(0, 0))}
+	}
+	cases = append(cases,
+		&Case{Tables: []Table{a3, b1}, Q: &Query{K: "setop", SOp: "union", L: exc(), R: sel(tbl(1), &Expr{Op: "cmp", O: "=", A: col(0, 0), B: konst(intv(5))}, col(0, 0))}},
+		&Case{Tables: []Table{a3, b1}, Q: &Query{K: "setop", SOp: "intersect", L: exc(), R: sel(tbl(0), tru(), col(0, 0))}},
+		&Case{Tables: []Table{a3, b1}, Q: &Query{K: "setop", SOp: "except", L: exc(), R: sel(tbl(1), &Expr{Op: "cmp", O: "=", A: col(0, 0), B: konst(intv(5))}, col(0, 0))}})
 	cases = append(cases, findingCorpus()...)
 	return cases
 }
